@@ -26,7 +26,8 @@ def run(ctx):
     vlib.import_pymwp()
     n = ctx.n(160, 1500)
     progs = streams.programs(ctx, n, max_sites=ctx.n(5, 6))
-    progs += streams.focused(ctx, ctx.n(30, 400), "branch-accumulate") + streams.focused(ctx, ctx.n(20, 200), "pair-cycle")
+    progs += (streams.focused(ctx, ctx.n(30, 400), "branch-accumulate") + streams.focused(ctx, ctx.n(20, 200), "pair-cycle") +
+              streams.focused(ctx, ctx.n(40, 400), "for-accumulate"))
     failing, mism, recs, coq_cases = [], [], [], []
     kinds = {"one-loop": 0, "multi-loop": 0, "nested": 0, "loop-after-failing": 0}
     agree = 0
